@@ -159,6 +159,13 @@ func (ms *Modules) resolveIdentities() []error {
 			if in.Module == nil {
 				continue
 			}
+			if module(in.Module) == nil {
+				// The included submodule belongs to a module that was
+				// never loaded: its identities have no module to be
+				// named after.
+				errs = append(errs, fmt.Errorf("%s: submodule %s belongs to unknown module %s", Source(in), in.Module.Name, in.Module.BelongsTo.Name))
+				continue
+			}
 			for _, i := range in.Module.Identities() {
 				keyName, r := newResolvedIdentity(in.Module, i)
 				ms.typeDict.identities.dict[keyName] = *r
